@@ -202,6 +202,21 @@ pub(crate) fn value_of_correct_type(
         ast::Value::Object(obj) => match &type_definition {
             schema::ExtendedType::Scalar(scalar) if !scalar.is_built_in() => {}
             schema::ExtendedType::InputObject(input_obj) => {
+                // Input Object Field Uniqueness
+                for (index, (name, value)) in obj.iter().enumerate() {
+                    if let Some((_, original)) = obj[..index].iter().find(|(other, _)| other == name)
+                    {
+                        diagnostics.push(
+                            value.location(),
+                            DiagnosticData::UniqueInputValue {
+                                name: name.clone(),
+                                original_definition: original.location(),
+                                redefined_definition: value.location(),
+                            },
+                        );
+                    }
+                }
+
                 let undefined_field = obj
                     .iter()
                     .find(|(name, ..)| !input_obj.fields.contains_key(name));
